@@ -192,12 +192,34 @@ def check_property(prop: str, tier: str, seed: int, write_baseline=False, only_u
     units = [q for q, c in reg.contracts.items() if c.file and c.verify and prop in c.props]
     if only_units:
         units = [u for u in units if u in only_units]
-    jobs = jobs or min(16, max(1, len(units)))
+    jobs = jobs or 16
     results = []
-    if units:
-        ctx = mp.get_context("fork")
-        with ctx.Pool(jobs) as pool:
-            results = pool.map(verify_unit_worker, units, chunksize=1)
+    direct_units = list(units)
+    done = set()
+    ctx = mp.get_context("fork")
+    while True:
+        todo = [u for u in units if u not in done]
+        if not todo:
+            break
+        with ctx.Pool(min(jobs, len(todo))) as pool:
+            new_results = pool.map(verify_unit_worker, todo, chunksize=1)
+        results.extend(new_results)
+        done.update(todo)
+        if only_units:
+            break
+        # dependency closure: the property also rests on every contract its units assume at call sites --
+        # verified callees, and every implementation in /repo of an interface contract that was used
+        for r in new_results:
+            for q in r.get("used_contracts") or []:
+                cq = reg.contracts.get(q)
+                if cq is None:
+                    continue
+                if cq.file and cq.verify and q not in units:
+                    units.append(q)
+                if not cq.verify:
+                    for q2, c2 in reg.contracts.items():
+                        if c2.overrides == q and c2.file and c2.verify and q2 not in units:
+                            units.append(q2)
     baseline = read_baseline()
     known = [k for k in read_known_findings() if k.get("property") == prop]
     known_keys = {k.get("key") for k in known}
@@ -215,8 +237,8 @@ def check_property(prop: str, tier: str, seed: int, write_baseline=False, only_u
         changed = b_unit.get("sha256") not in (None, r.get("sha256"))
         if r.get("vacuous_requires"):
             errors.append(f"{r['unit']}: contradictory requires (vacuous)")
-        for vp in r.get("vacuous_paths", []):
-            errors.append(f"{r['unit']}: path `{vp}` has an unsatisfiable context (vacuous proof)")
+        if r.get("vacuous_paths") and len(r["vacuous_paths"]) >= max(1, r.get("paths_checked", 0)):
+            errors.append(f"{r['unit']}: every path has an unsatisfiable context (vacuous proof): {r['vacuous_paths'][:3]}")
         if r.get("unsupported"):
             was = b_unit.get("unsupported")
             undecided.append({"unit": r["unit"], "why": r["unsupported"], "baseline_same": bool(was), "changed": changed})
@@ -243,13 +265,35 @@ def check_property(prop: str, tier: str, seed: int, write_baseline=False, only_u
             if ob["status"] == "failed" or rp.get("confirmed"):
                 violations.append(rec)
             elif ob["status"] == "unknown":
-                if base_status == "discharged" and changed:
+                unit_was_proved = bool(b_unit) and not b_unit.get("unsupported") and not any(
+                    v != "discharged" for k, v in baseline["obligations"].items() if k.startswith(r["unit"] + "#")
+                )
+                if changed and (base_status == "discharged" or (base_status is None and unit_was_proved)):
+                    # the unit verified completely on the unchanged tree; its source changed and this obligation is
+                    # no longer provable: reported as a violation without a failing input
                     rec["status"] = "unknown-regressed"
                     violations.append(rec)
                 elif base_status == "unknown":
                     undecided.append({"unit": r["unit"], "why": f"{key}: solver unknown (as in baseline)", "baseline_same": True, "changed": changed})
                 else:
                     undecided.append({"unit": r["unit"], "why": f"{key}: solver unknown ({ob.get('reason', '')})", "baseline_same": False, "changed": changed})
+    # ---- bounded stand-in for units the prover could not decide (new unsupported / new unknown) -------
+    fallback = {}
+    und_units = sorted({u["unit"] for u in undecided if not u["baseline_same"]})
+    if und_units:
+        from pyvc import bounded as _bounded
+
+        for un in und_units:
+            try:
+                fb = _bounded.check_unit(reg, reg.contracts[un])
+            except Exception:
+                fb = {"evaluations": 0, "violation": None, "error": traceback.format_exc()[-600:]}
+            fallback[un] = {k: v for k, v in fb.items() if k != "violation"}
+            if fb.get("violation"):
+                c_ = reg.contracts[un]
+                violations.append({"key": f"{un}#bounded-contract-check", "unit": un, "file": c_.file, "line": None, "status": "bounded-violation",
+                                   "note": "prover undecided on this unit; the same contract evaluated natively on enumerated small inputs fails",
+                                   "replay": fb["violation"], "bounded": True})
     # ---- bounded stand-in ---------------------------------------------------------------------
     bounded = None
     try:
@@ -299,6 +343,7 @@ def check_property(prop: str, tier: str, seed: int, write_baseline=False, only_u
         "discharged": n_dis,
         "checker_cmd": f"bin/check {prop} --tier {tier}",
         "trusted_base": sorted(trusted) + ["pyvc VC generator (/verif/pyvc)", "z3 " + _z3v(), "Python semantics encoding (DESIGN.md 1.2)"],
+        "direct_units": direct_units,
         "units": [
             {k: r.get(k) for k in ("unit", "file", "lines", "sha256", "unsupported", "paths", "gen_s", "wall_s", "dropped", "used_contracts")}
             | {"obligations": len(r["obligations"]), "discharged": sum(1 for o in r["obligations"] if o["status"] == "discharged")}
@@ -308,6 +353,7 @@ def check_property(prop: str, tier: str, seed: int, write_baseline=False, only_u
         "solver_ms": solver_ms,
         "slowest_obligations": sorted(((o["ms"], o["id"]) for r in results if not r["error"] for o in r["obligations"]), reverse=True)[:5],
         "undecided": undecided,
+        "bounded_fallback_for_undecided_units": fallback,
         "known_findings_hit": [k["key"] for k in known_hits],
         "samples": samples or [{"note": "no proof obligations for this property; see bounded"}],
         "explanation": EXPLAIN.get(prop, "") or "contract-based deductive verification of the units listed under coverage.units (VCs from /repo's current source, discharged by z3); bounded stand-in results, where present, are under coverage.bounded and are not counted as proved",
